@@ -239,5 +239,15 @@ func thoroughSpecs(seed int64, n int) []modelSpec {
 			xs = append(xs, x)
 		}
 	}
-	return append(out, genSpecs("random depth≤3", xs)...)
+	out = append(out, genSpecs("random depth≤3", xs)...)
+	// a smaller share of deeper expressions
+	var ys []*mexpr
+	for tries := 0; len(ys) < n/8 && tries < 20*n; tries++ {
+		x := randomExpr(rng, 4)
+		if s := x.String(); !seen[s] && len(s) < 160 {
+			seen[s] = true
+			ys = append(ys, x)
+		}
+	}
+	return append(out, genSpecs("random depth≤4", ys)...)
 }
